@@ -1,4 +1,5 @@
 SPECIFICATION Spec
 CONSTANT DevAstralFiveHex = TRUE
+CONSTANT FuncTable <- TraceFuncTable
 POSTCONDITION TraceAccepted
 CHECK_DEADLOCK FALSE
